@@ -6,7 +6,7 @@ from fractions import Fraction
 import numpy as np
 import torch
 
-from contracts.common import Q1, as_affine, make_grid, outside_eq_band
+from contracts.common import Q1, as_affine, make_grid, outside_cube_band, outside_eq_band
 from spec import grid as SG
 from vc import expr as E
 from vc.contract import register
@@ -54,3 +54,465 @@ class GridTransform:
         bad = want.copy()
         bad[0, -1] = E.add(bad[0, -1], Fraction(1, 2))
         K.ensure_eq("mustfail", got, bad, text="perturbed spec (half a sample)", must_fail=True)
+
+
+Q_VEC = "C01: vectors transform by exactly the linear part of the point map"
+Q_LAW = "C01: A->B followed by B->A is the identity, A->C equals A->B->C"
+Q_COORDS = ("C01: the normalised sample coordinates a grid reports are these maps applied to its integer indices, there are "
+            "exactly n of them per axis inside [-1, 1]")
+Q_IDENT = "C01: sampling an image at them with the matching align_corners flag returns the image unchanged"
+
+VSHAPES = {"vec": lambda D: (D,), "2D": lambda D: (2, D), "23D": lambda D: (2, 3, D)}
+
+
+def apply_spec(A, t, pts, vectors):
+    """pts: object array (..., D) -> A p (+ t)"""
+    D = A.shape[0]
+    flat = pts.reshape(-1, D)
+    out = np.empty(flat.shape, dtype=object)
+    for m in range(flat.shape[0]):
+        y = SG.matvec(A, list(flat[m]))
+        for i in range(D):
+            out[m, i] = y[i] if vectors else E.add(y[i], t[i])
+    return out.reshape(pts.shape)
+
+
+def second_grid(K, case, g, gs):
+    if case["to_grid"] == "other":
+        h, hs = make_grid(K, "h", case["D"], det=1, align_corners=False)
+        outside_eq_band(K, gs, hs)
+        return h, hs
+    if case["to_grid"] == "same":
+        return g, gs
+    return None, gs
+
+
+@register
+class GridTransformVectors:
+    """Grid.transform_vectors has its own closed-form scale/affine path; it must equal the linear part of the point map."""
+
+    target = "deepali.core.grid:Grid.transform_vectors"
+    properties = ("C01",)
+
+    def cases(self, tier):
+        for D in (2, 3):
+            for a in AX:
+                for b in AX:
+                    for other in ("none", "other"):
+                        for shp in (("vec", "23D") if tier == "thorough" else ("2D",)):
+                            yield {"D": D, "axes": a, "to_axes": b, "to_grid": other, "shape": shp, "det": 1}
+
+    def run(self, case, K):
+        from deepali.core.grid import Axes
+
+        D = case["D"]
+        g, gs = make_grid(K, "g", D, det=case["det"])
+        h, hs = second_grid(K, case, g, gs)
+        ev = K.reals("v", VSHAPES[case["shape"]](D))
+        v = K.tensor(ev)
+        res = K.call(g.transform_vectors, v, Axes(case["axes"]), Axes(case["to_axes"]), to_grid=h)
+        if not K.ensure_returns(res, text="Grid.transform_vectors succeeds for every valid grid pair and axes pair"):
+            return
+        A, t = SG.point_map(gs, case["axes"], hs, case["to_axes"])
+        K.ensure_eq("vectors", res, apply_spec(A, t, ev, True), text=Q_VEC)
+        if case["axes"] == "world" and case["to_axes"] == "world":
+            K.ensure("same-object", E.bconst(res is v), text="WORLD->WORLD returns its argument unchanged", kind="helper")
+        bad = apply_spec(A, [E.add(x, Fraction(1, 2)) for x in t], ev, False)
+        K.ensure_eq("mustfail", res, bad, text="vectors moved by a point offset", must_fail=True)
+
+
+def unround(e):
+    """If e == round(arg) * 10^-k structurally, return (arg, k) else None."""
+    if e.op == "round":
+        return e.args[0], 0
+    if e.op == "mul" and len(e.args) == 2 and e.args[1].op == "const" and e.args[0].op == "round":
+        c = e.args[1].args[0]
+        k = 0
+        while c < 1 and k < 40:
+            c *= 10
+            k += 1
+        if c == 1:
+            return e.args[0].args[0], k
+    return None
+
+
+@register
+class GridApplyTransform:
+    target = "deepali.core.grid:Grid.apply_transform"
+    properties = ("C01",)
+
+    def cases(self, tier):
+        for D in (2, 3):
+            for a in AX:
+                for b in AX:
+                    for other in ("none", "other"):
+                        for vectors in (False, True):
+                            for dec in ("none", "default"):
+                                if dec == "default" and (vectors or other == "other") and tier == "quick":
+                                    continue
+                                yield {"D": D, "axes": a, "to_axes": b, "to_grid": other, "vectors": vectors,
+                                       "decimals": dec, "shape": "2D" if tier == "quick" else "23D", "det": 1}
+
+    def run(self, case, K):
+        from deepali.core.grid import Axes
+
+        D = case["D"]
+        g, gs = make_grid(K, "g", D, det=case["det"])
+        h, hs = second_grid(K, case, g, gs)
+        ep = K.reals("p", VSHAPES[case["shape"]](D))
+        p = K.tensor(ep)
+        kw = {"decimals": None} if case["decimals"] == "none" else {}
+        res = K.call(g.apply_transform, p, Axes(case["axes"]), Axes(case["to_axes"]), to_grid=h, vectors=case["vectors"], **kw)
+        if not K.ensure_returns(res, text="Grid.apply_transform succeeds for every valid grid pair and axes pair"):
+            return
+        A, t = SG.point_map(gs, case["axes"], hs, case["to_axes"])
+        want = apply_spec(A, t, ep, case["vectors"])
+        if case["decimals"] == "none":
+            K.ensure_eq("apply", res, want, text=Q1 + " (the map applied to the last axis of a point tensor)")
+            return
+        # default rounding: the result is the exact value rounded as the LAST step to >= 6 decimals
+        got = K.val(res)
+        if K.mode == "conc":
+            K.ensure_eq("apply-rounded", got, want, text="default rounding keeps the mapped coordinates within 1/2 * 10^-6", tol=2e-5)
+            return
+        for idx in np.ndindex(*got.shape):
+            e = got[idx]
+            u = unround(e)
+            if u is None:
+                # not rounded at all (e.g. mapping to world): must be the exact value
+                K.ensure_eq(f"apply{list(idx)}", e, want[idx], text="default decimals: unrounded results are the exact map")
+                continue
+            arg, k = u
+            K.ensure(f"decimals{list(idx)}", E.bconst(k >= 6), text="C01 mechanism: default rounding of mapped coordinates (6/12 decimals) must not break inverses: at least 6 decimals")
+            K.ensure_eq(f"last-step{list(idx)}", E.mul(arg, Fraction(1, 10 ** k)), want[idx],
+                        text="rounding is the last step: the rounded quantity is the exact mapped coordinate, so the result is within 1/2 * 10^-decimals of it")
+
+
+@register
+class GridPointHelpers:
+    """index_to_cube, cube_to_index, index_to_world, world_to_index, cube_to_world, world_to_cube and the module-level
+    grid_transform_points / grid_transform_vectors / grid_points_transform / grid_vectors_transform wrappers."""
+
+    target = "deepali.core.grid:Grid.transform_points"
+    properties = ("C01",)
+    HELPERS = {
+        "index_to_cube": ("grid", "cube?"), "cube_to_index": ("cube?", "grid"), "index_to_world": ("grid", "world"),
+        "world_to_index": ("world", "grid"), "cube_to_world": ("cube?", "world"), "world_to_cube": ("world", "cube?"),
+    }
+
+    def cases(self, tier):
+        for D in (2, 3):
+            for name, (a, b) in self.HELPERS.items():
+                acs = (None, True, False) if "cube?" in (a, b) else (None,)
+                for ac in acs:
+                    for gac in (True, False):
+                        yield {"D": D, "helper": name, "align_corners": ac, "grid_align_corners": gac}
+            for fn in ("grid_transform_points", "grid_transform_vectors", "grid_points_transform", "grid_vectors_transform"):
+                yield {"D": D, "helper": fn, "align_corners": None, "grid_align_corners": True}
+
+    def run(self, case, K):
+        from deepali.core import grid as G
+
+        D = case["D"]
+        g, gs = make_grid(K, "g", D, align_corners=case["grid_align_corners"])
+        ep = K.reals("p", (2, D))
+        p = K.tensor(ep)
+        name = case["helper"]
+        if name in self.HELPERS:
+            a, b = self.HELPERS[name]
+            ac = case["align_corners"] if case["align_corners"] is not None else case["grid_align_corners"]
+            cube = "cube_corners" if ac else "cube"
+            a = cube if a == "cube?" else a
+            b = cube if b == "cube?" else b
+            kw = {"decimals": None}
+            if "cube" in name:
+                kw["align_corners"] = case["align_corners"]
+            res = K.call(getattr(g, name), p, **kw)
+            if not K.ensure_returns(res):
+                return
+            A, t = SG.point_map(gs, a, gs, b)
+            K.ensure_eq("helper", res, apply_spec(A, t, ep, False), text=Q1 + f" ({name}: cube axes follow the align_corners flag)")
+            return
+        h, hs = make_grid(K, "h", D, align_corners=False)
+        outside_eq_band(K, gs, hs)
+        A, t = SG.point_map(gs, "cube", hs, "grid")
+        ax, tax = G.Axes.CUBE, G.Axes.GRID
+        if name == "grid_transform_points":
+            res = K.call(G.grid_transform_points, p, g, ax, h, tax, decimals=None)
+            want = apply_spec(A, t, ep, False)
+        elif name == "grid_transform_vectors":
+            res = K.call(G.grid_transform_vectors, p, g, ax, h, tax)
+            want = apply_spec(A, t, ep, True)
+        elif name == "grid_points_transform":
+            res = K.call(G.grid_points_transform, g, ax, h, tax)
+            want = SG.hom(A, t)
+        else:
+            res = K.call(G.grid_vectors_transform, g, ax, h, tax)
+            want = A
+        if not K.ensure_returns(res):
+            return
+        K.ensure_eq("wrapper", res, want, text=Q1 + f" ({name})")
+
+
+@register
+class GridLaws:
+    """The laws of the statement, run end-to-end through the real code (they also follow from the per-call contracts)."""
+
+    target = "deepali.core.grid:Grid.transform"
+    properties = ("C01",)
+
+    def cases(self, tier):
+        for D in (2, 3):
+            for a in AX:
+                for b in AX:
+                    for c in AX:
+                        for two in (False, True):
+                            if tier == "quick" and D == 3 and two:
+                                continue  # 3-D two-grid law harness: thorough tier (the per-call contracts cover it)
+                            yield {"D": D, "a": a, "b": b, "c": c, "two_grids": two}
+
+    def run(self, case, K):
+        from deepali.core.grid import Axes
+        from deepali.core.linalg import hmm
+
+        D = case["D"]
+        g, gs = make_grid(K, "g", D)
+        if case["two_grids"]:
+            h, hs = make_grid(K, "h", D, align_corners=False)
+            outside_eq_band(K, gs, hs)
+        else:
+            h, hs = g, gs
+        a, b, c = Axes(case["a"]), Axes(case["b"]), Axes(case["c"])
+        # a on g  ->  b on h  ->  c on g
+        m_ab = K.call(g.transform, a, b, to_grid=h)
+        m_bc = K.call(h.transform, b, c, to_grid=g)
+        m_ac = K.call(g.transform, a, c)
+        m_ba = K.call(h.transform, b, a, to_grid=g)
+        for m in (m_ab, m_bc, m_ac, m_ba):
+            if not K.ensure_returns(m):
+                return
+        comp = K.call(hmm, m_bc, m_ab)
+        back = K.call(hmm, m_ba, m_ab)
+        K.ensure_eq("a->c == a->b->c", as_affine(K, comp), as_affine(K, m_ac), text=Q_LAW)
+        K.ensure_eq("b->a o a->b == id", as_affine(K, back), SG.hom(SG.eye(D), [E.ZERO] * D), text=Q_LAW)
+        va = K.call(g.transform, a, b, to_grid=h, vectors=True)
+        if K.ensure_returns(va):
+            K.ensure_eq("vectors == linear part", K.val(va), as_affine(K, m_ab)[:, :D], text=Q_VEC)
+
+
+def index_points(shape):
+    """integer index tuples (x, y[, z]) of a grid with tensor shape (.., Y, X), as object array shape + (D,)"""
+    D = len(shape)
+    out = np.empty(tuple(shape) + (D,), dtype=object)
+    for idx in np.ndindex(*shape):
+        for d in range(D):
+            out[idx + (d,)] = E.const(idx[D - 1 - d])
+    return out
+
+
+@register
+class GridCoords:
+    """Grid.coords / Grid.points for concrete sizes (the size is a shape here), symbolic geometry."""
+
+    target = "deepali.core.grid:Grid.coords"
+    properties = ("C01",)
+    SIZES = {2: [(3, 4), (1, 5), (2, 2)], 3: [(2, 3, 4), (3, 1, 2)]}
+
+    def cases(self, tier):
+        for D in (2, 3):
+            for size in self.SIZES[D]:
+                for normalize in (True, False):
+                    for ac in (True, False):
+                        for center in ((False, True) if not normalize else (False,)):
+                            for flip in (False, True):
+                                for cl in (True, False):
+                                    if tier == "quick" and (flip or not cl) and size != self.SIZES[D][0]:
+                                        continue
+                                    yield {"D": D, "size": list(size), "normalize": normalize, "align_corners": ac,
+                                           "center": center, "flip": flip, "channels_last": cl, "fn": "coords"}
+                for axes in AX:
+                    if axes == "cube_corners" and 1 in size:
+                        continue  # cube-corner coordinates need two anchors (n >= 2)
+                    yield {"D": D, "size": list(size), "fn": "points", "axes": axes}
+
+    def run(self, case, K):
+        from deepali.core.grid import Axes
+
+        D = case["D"]
+        size = case["size"]
+        g, gs = make_grid(K, "g", D, sizes=size, align_corners=True)
+        shape = tuple(size[::-1])
+        idx = index_points(shape)
+        if case["fn"] == "points":
+            res = K.call(g.points, Axes(case["axes"]))
+            if not K.ensure_returns(res):
+                return
+            A, t = SG.point_map(gs, "grid", gs, case["axes"])
+            want = apply_spec(A, t, idx, False)
+            if case["axes"] in ("cube", "cube_corners", "grid") and K.mode == "sym":
+                got = K.val(res)
+                # default rounding may be applied (helper): compare the rounded quantity
+                # default rounding (>= 6 decimals, last step) is applied to these coordinates: within 1/2 * 10^-6
+                half = Fraction(1, 2 * 10 ** 6)
+                for i in np.ndindex(*got.shape):
+                    u = unround(got[i])
+                    if u:
+                        K.ensure_eq(f"points{list(i)}", E.mul(u[0], Fraction(1, 10 ** u[1])), want[i], text=Q_COORDS + " (Grid.points)")
+                    else:
+                        d = E.sub(got[i], want[i])
+                        K.ensure(f"points{list(i)}", E.and_(E.le(d, half), E.le(E.neg(d), half)), text=Q_COORDS + " (Grid.points, within default rounding)")
+            else:
+                K.ensure_eq("points", res, want, text=Q_COORDS + " (Grid.points)", tol=2e-5)
+            return
+        res = K.call(g.coords, center=case["center"], normalize=case["normalize"], align_corners=case["align_corners"],
+                     channels_last=case["channels_last"], flip=case["flip"])
+        if not K.ensure_returns(res):
+            return
+        got = K.val(res)
+        if not case["channels_last"]:
+            got = np.moveaxis(got, 0, -1)
+        if case["flip"]:
+            got = got[..., ::-1]
+        K.ensure("count", E.bconst(tuple(got.shape) == shape + (D,)), text=Q_COORDS + " (exactly n per axis)")
+        if tuple(got.shape) != shape + (D,):
+            return
+        if case["normalize"]:
+            # an axis with a single sample has no cube-corner map (first == last sample); the statement's anchors
+            # put that sample at the centre, coordinate 0 - compute the other axes with a stand-in size
+            gs1 = SG.GridSpec([n if s > 1 else E.const(2) for n, s in zip(gs.N, size)], gs.s, gs.c, gs.R)
+            A, t = SG.point_map(gs1, "grid", gs1, "cube_corners" if case["align_corners"] else "cube")
+            want = apply_spec(A, t, idx, False)
+            # a single sample sits at the centre of the cube
+            for d in range(D):
+                if size[d] == 1:
+                    want[..., d] = E.ZERO
+        elif case["center"]:
+            want = idx.copy()
+            for d in range(D):
+                for i in np.ndindex(*shape):
+                    want[i + (d,)] = E.sub(idx[i + (d,)], Fraction(size[d] - 1, 2))
+        else:
+            want = idx
+        K.ensure_eq("coords", got, want, text=Q_COORDS, tol=1e-5)
+        if case["normalize"]:
+            for e in got.ravel():
+                K.ensure("range", lambda s, e=e: E.and_(E.le(E.const(-1) - s, e), E.le(e, E.const(1) + s)), text=Q_COORDS + " (inside [-1, 1])", slack=1e-6)
+
+
+@register
+class GridCoordsLattice:
+    """Bounded (exhaustive over the stated finite range): per-axis lattice for every n in [1, 4096], both conventions,
+    float32 and float64 - exactly n entries, all inside [-1, 1], equal to the affine lattice."""
+
+    target = "deepali.core.grid:Grid.coords"
+    properties = ("C01",)
+    symbolic = False
+    n_bounded = 1
+
+    def cases(self, tier):
+        top = 4096
+        step = 512
+        for lo in range(1, top + 1, step):
+            for ac in (True, False):
+                yield {"n_from": lo, "n_to": min(lo + step - 1, top), "align_corners": ac}
+
+    def run(self, case, K):
+        from deepali.core.grid import Grid
+
+        ac = case["align_corners"]
+        for n in range(case["n_from"], case["n_to"] + 1):
+            for dt in (torch.float32, torch.float64):
+                g = Grid(size=(n, 2))
+                c = g.coords(dim=0, align_corners=ac, dtype=dt).reshape(-1)
+                K.checked += 3
+                if c.numel() != n:
+                    K.failures.append({"clause": Q_COORDS + " (exactly n per axis)", "kind": "property", "n": n, "got": int(c.numel()), "dtype": str(dt), "align_corners": ac})
+                    continue
+                if n == 1:
+                    want = torch.zeros(1, dtype=torch.float64)
+                elif ac:
+                    want = -1 + 2 * torch.arange(n, dtype=torch.float64) / (n - 1)
+                else:
+                    want = -1 + (2 * torch.arange(n, dtype=torch.float64) + 1) / n
+                err = (c.double() - want).abs().max().item()
+                eps = 1.2e-7 if dt == torch.float32 else 2.3e-16
+                if err > 2 * eps * n + eps:
+                    K.failures.append({"clause": Q_COORDS + " (lattice values)", "kind": "property", "n": n, "err": err, "dtype": str(dt), "align_corners": ac})
+                if c.min().item() < -1 - 2 * eps or c.max().item() > 1 + 2 * eps * n:
+                    K.failures.append({"clause": Q_COORDS + " (inside [-1, 1])", "kind": "property", "n": n, "dtype": str(dt), "align_corners": ac, "max": c.max().item()})
+
+
+@register
+class GridIdentitySampling:
+    """grid_sample(image, grid.coords(align_corners=a), align_corners=a) == image, for all image contents."""
+
+    target = "deepali.core.grid:Grid.coords"
+    properties = ("C01",)
+    SHAPES = {2: [(3, 4)], 3: [(2, 3, 2)]}
+
+    def cases(self, tier):
+        for D in (2, 3):
+            for shape in self.SHAPES[D] + ([(5, 2)] if D == 2 and tier == "thorough" else []):
+                for ac in (True, False):
+                    for mode in ("bilinear", "nearest"):
+                        yield {"D": D, "shape": list(shape), "align_corners": ac, "mode": mode}
+
+    def run(self, case, K):
+        import torch.nn.functional as F
+
+        from deepali.core.grid import Grid
+
+        shape = tuple(case["shape"])
+        g = Grid(shape=shape, align_corners=case["align_corners"])
+        eimg = K.reals("im", (1, 2) + shape)
+        img = K.tensor(eimg)
+        coords = K.call(g.coords, align_corners=case["align_corners"])
+        if not K.ensure_returns(coords):
+            return
+        out = K.call(F.grid_sample, img, coords.unsqueeze(0), mode=case["mode"], align_corners=case["align_corners"], padding_mode="zeros")
+        if not K.ensure_returns(out):
+            return
+        K.ensure_eq("identity", out, eimg, text=Q_IDENT, tol=1e-5)
+
+
+@register
+class CubeTransform:
+    """Cube.transform between cube and world (and between two cubes); Grid.cube() is the grid's +-1 box."""
+
+    target = "deepali.core.cube:Cube.transform"
+    properties = ("C01",)
+
+    def cases(self, tier):
+        for D in (2, 3):
+            for a, b in (("cube", "world"), ("world", "cube"), ("cube", "cube"), ("cube_corners", "world"), ("world", "world")):
+                for vectors in (False, True):
+                    for other in ((False, True) if a == b == "cube" else (False,)):
+                        for ac in (True, False):
+                            yield {"D": D, "axes": a, "to_axes": b, "vectors": vectors, "other": other, "grid_align_corners": ac}
+
+    def run(self, case, K):
+        from deepali.core.grid import Axes
+
+        D = case["D"]
+        ac = case["grid_align_corners"]
+        g, gs = make_grid(K, "g", D, align_corners=ac)
+        cube = K.call(g.cube)
+        if not K.ensure_returns(cube, text="Grid.cube() succeeds"):
+            return
+        cax = "cube_corners" if ac else "cube"  # the cube of a grid is its +-1 box for its own align_corners
+        if case["other"]:
+            h, hs = make_grid(K, "h", D, align_corners=not ac)
+            outside_cube_band(K, gs, ac, hs, not ac)
+            cube2 = K.call(h.cube)
+            hax = "cube" if ac else "cube_corners"
+        else:
+            cube2, hs, hax = None, gs, cax
+        res = K.call(cube.transform, Axes(case["axes"]), Axes(case["to_axes"]), to_cube=cube2, vectors=case["vectors"])
+        if not K.ensure_returns(res, text="Cube.transform succeeds for cube/world axes"):
+            return
+        a = cax if case["axes"] != "world" else "world"
+        b = hax if case["to_axes"] != "world" else "world"
+        A, t = SG.point_map(gs, a, hs, b)
+        got = K.val(res) if case["vectors"] else as_affine(K, res)
+        K.ensure_eq("cube-map", got, A if case["vectors"] else SG.hom(A, t),
+                    text="C01: cube <-> world maps of the domain object agree with the grid's own normalised-cube maps (the cube of a grid is its -1/+1 box)")
